@@ -16,6 +16,30 @@ CHECKS = {
             "engineered fail_mag entries) and compares with the exact constant term; exploration, not proof.",
             "numpy float64; tolerance scales with the Lagrange condition number of the nodes; the repo's own "
             "from_phi supplies extrap_x for the real-model case", "DESIGN.md §2 C07"),
+    "C08": ("differential monitor at Spectrum.project / Numerics._cached_projection against exact rational hypergeometric weights; exhaustive for 1<=m<=n<=40",
+            "Every 1-D pair 1<=m<=n<=40 with every hits value is run through the real functions (exhaustive), plus sampled n<=200, "
+            "2-4-D spectra with random/single-entry masks, folded inputs, two-stage and axis-order compositions and cache "
+            "transparency (cold, warm, polluted). Exhaustive only for the 1-D n<=40 sweep; exploration elsewhere.",
+            "fractions.Fraction weights rounded once; mask semantics as stated in the property", "DESIGN.md §2 C08"),
+    "C09": ("invariant/differential monitors at Spectrum.fold/unfold, Numerics.apply_anc_state_misid and every Spectrum operator against explicit per-entry index arithmetic",
+            "Random 1-5-D spectra (even/odd totals, singleton axes, masks, labels): fold/unfold/misid against ndindex loops, "
+            "mirror invariance, idempotence, refusal of folded/unfolded mixing for all 12 binary + 6 in-place operators with four "
+            "operand kinds, attribute survival under slicing/unary/log/likelihood evaluation.",
+            "the always-masked [0,...,0] corner of a folded spectrum (constructor default) is not judged", "DESIGN.md §2 C09"),
+    "C10": ("differential monitor at Spectrum.marginalize/filter_pops/reorder_pops/combine_pops/combine_two_pops/scramble_pop_ids and Misc.combine_pops against ndindex re-indexing and exact pooled-redealt weights",
+            "Random 2-6-D spectra with unequal sizes; all subsets/permutations/merge sets up to 4-D and sampled above; data, mask, "
+            "folded flag, labels, totals and commutation with project/fold are compared with explicit index arithmetic.",
+            "absent/fixed corners excluded from data comparison; inputs have no interior masks (documented as ill-defined)", "DESIGN.md §2 C10"),
+    "C11": ("differential monitor at Inference.ll/ll_per_bin/ll_multinom/optimal_sfs_scaling/residuals against an explicit Poisson sum over the intersected index set and a golden-section maximiser",
+            "Random 1-3-D model/data pairs (projected non-integer data, zeros, independent masks, folded data, corners masked or not); "
+            "likelihood values, per-bin masks, optimal scaling, maximality over scalings, scale invariance, Gibbs maximality of "
+            "model=c*data, residual sign and masks.",
+            "scipy.special.gammaln; inputs with <3 jointly unmasked entries are skipped (likelihood undefined)", "DESIGN.md §2 C11"),
+    "C14": ("round-trip monitor over Spectrum.to_file/from_file (plain, gz, old format), Numerics.array_to_file/array_from_file and every pickle protocol",
+            "Random 1-5-D spectra incl. singleton axes, 1e-300..1e300, inf/nan, masks, folding, labels with spaces, 0-5 comments, "
+            "precision 16-20: written with the real writers into scratch files and read back with the real readers; shape, mask, "
+            "folding, labels, comments and values (to the written precision; bit-exact for pickle) compared.",
+            "file system of the scratch directory; gzip magic checked on the raw file", "DESIGN.md §2 C14"),
 }
 
 PENDING_REASON = "check not built yet in this round (design in DESIGN.md §2); no claim is made"
